@@ -307,8 +307,13 @@ func stringsIntrinsic(name string, fn *ssa.Function) intrinsicFn {
 				}
 			}
 			if strings.HasPrefix(name, "bytes.") {
-				if a[0].(*SliceV) == nil {
+				sl := a[0].(*SliceV)
+				if sl == nil {
 					return (*SliceV)(nil)
+				}
+				if sl.LenT == nil {
+					// a sub-slice of the argument, as in the library: it shares the argument's memory
+					return &SliceV{Arr: sl.Arr, Off: sl.Off + lo, Len: hi - lo, Cap: sl.Cap - lo}
 				}
 				return x.byteSlice(append([]*Term{}, s[lo:hi]...))
 			}
